@@ -350,7 +350,7 @@ def run_property(prop, units, level, tier, seed, assumptions=(), nproc=None, onl
         print("KNOWN-FINDING: property=%s %s [%s; %d instance(s) this run]" % (prop, f["what"], fkey, len(vs)))
 
     rdir = os.path.join(env.OUT, "replays", prop)
-    if os.path.isdir(rdir) and not only:
+    if os.path.isdir(rdir):
         for fn in os.listdir(rdir):  # replays of earlier runs are stale
             if fn.endswith(".json"):
                 os.unlink(os.path.join(rdir, fn))
